@@ -81,6 +81,14 @@ def generate(rng):
     if rng.random() < 0.2:
         steps.append({'silence': rng.choice([100000, 1000000, 5000000])})
     scn['steps'] = steps
+    if rng.random() < 0.15:
+        # spawn options passed through run(**kwargs).  With a search window an event pattern further back than the
+        # window is legitimately not seen, so these runs carry marker events only (TIMEOUT / EOF): what is judged is
+        # that the whole output comes back however the run ends
+        scn['run_kwargs'] = {'searchwindowsize': rng.choice([1, 8, 64, 500])}
+        scn['events'] = [e for e in events if e['pat'] in ('TIMEOUT', 'EOF')]
+    elif rng.random() < 0.15:
+        scn['run_kwargs'] = {'use_poll': True}
     gen_eintr(rng, scn)
     return scn
 
@@ -211,7 +219,9 @@ def run(scn):
         prun.spawn = T.SimSpawn
         w.begin_op(0)
         w.note('op', (0, 'run'))
-        kw = {}
+        kw = dict(scn.get('run_kwargs') or {})
+        if 'searchwindowsize' in kw and any(e['pat'] not in ('TIMEOUT', 'EOF') for e in events):
+            raise HarnessError('text events under a search window are not judged')
         if enc:
             kw['encoding'] = enc
         res = None
